@@ -207,11 +207,11 @@ class Engine:
     def _feasible(self):
         t0 = time.time()
         self.qf.set('timeout', 300)
-        if self.qf.check() == z3.unsat:
+        if _chk(self.qf) == z3.unsat:
             self.stats['z3_time'] += time.time() - t0
             return False
         self.solver.set('timeout', 150)
-        r = self.solver.check()
+        r = _chk(self.solver)
         self.stats['z3_time'] += time.time() - t0
         self.stats['checks'] += 1
         return r != z3.unsat
@@ -283,7 +283,7 @@ class Engine:
         try:
             self.qf.add(z3.Not(ob.goal))
             self.qf.set('timeout', 400)
-            r = self.qf.check()
+            r = _chk(self.qf)
         finally:
             self.qf.pop()
         if r == z3.unsat:
@@ -331,7 +331,7 @@ class Engine:
         t0 = time.time()
         for attempt in range(3):
             s = z3.Solver()
-            s.set('timeout', self.timeout_ms)
+            s.set('timeout', self.timeout_ms if attempt == 0 else max(1000, self.timeout_ms // 2))
             if attempt == 0:
                 s.set('smt.mbqi', False)          # E-matching on the stated patterns only: fast when the hints suffice
             if attempt == 2:
@@ -339,7 +339,7 @@ class Engine:
             for a in ob.assumptions:
                 s.add(a)
             s.add(z3.Not(goal))
-            r = s.check()
+            r = _chk(s)
             if r != z3.unknown:
                 break
         if r == z3.sat:
@@ -360,6 +360,15 @@ class Engine:
         if getattr(self, 'stop_on_fail', False) and ob.status != 'unsat':
             self.obligations.append(ob)
             raise StopAll()
+        if ob.status != 'unsat':
+            # a unit that keeps failing is not worth its remaining timeouts: five undischarged obligations settle the verdict
+            self.n_open = getattr(self, 'n_open', 0) + 1
+            if self.n_open >= getattr(self, 'max_open', 5):
+                k0 = ob.key()
+                if k0 not in self.seen:
+                    self.seen.add(k0)
+                    self.obligations.append(ob)
+                raise StopAll()
         k = ob.key()
         if k in self.seen:
             return
@@ -387,7 +396,7 @@ class Engine:
         s.push()
         s.add(z3.Not(ob.goal))
         s.set('timeout', self.timeout_ms)
-        r = s.check()
+        r = _chk(s)
         if r == z3.sat:
             try:
                 ob.model = s.model()
@@ -404,7 +413,7 @@ class Engine:
                 for a in ob.assumptions:
                     s2.add(a)
                 s2.add(z3.Not(ob.goal))
-                r = s2.check()
+                r = _chk(s2)
                 if r == z3.sat:
                     ob.model = s2.model()
                 if r != z3.unknown:
@@ -508,7 +517,7 @@ class Engine:
             self.qf.push()
             self.qf.add(neg)
             self.qf.set('timeout', 500)
-            res = self.qf.check()
+            res = _chk(self.qf)
             self.qf.pop()
             if res == z3.unsat:
                 reuse = oA
@@ -637,13 +646,13 @@ class Engine:
         s.set('timeout', 500)
         s.push()
         s.add(z3.Not(t))
-        r = s.check()
+        r = _chk(s)
         s.pop()
         if r == z3.unsat:
             return True
         s.push()
         s.add(t)
-        r = s.check()
+        r = _chk(s)
         s.pop()
         if r == z3.unsat:
             return False
@@ -775,10 +784,10 @@ class Engine:
         # vacuity guard: a path whose assumptions are contradictory proves everything; it is dropped here, and a case
         # without any live path is reported as vacuous by the caller
         self.qf.set('timeout', 300)
-        if self.qf.check() == z3.unsat:
+        if _chk(self.qf) == z3.unsat:
             raise Infeasible()
         self.solver.set('timeout', 300)
-        if self.solver.check() == z3.unsat:
+        if _chk(self.solver) == z3.unsat:
             raise Infeasible()
         raises = dict(contract.get('raises', {}))
         raises.update(case.get('raises', {}))
@@ -1579,6 +1588,15 @@ class Engine:
 
     def ev_Starred(self, n):
         raise Unsupported('starred')
+
+
+def _chk(solver):
+    """solver.check() that treats an internal solver error as 'unknown' (z3 5.1 intermittently raises "Sorts Bool and XR are
+    incompatible" on queries with lambdas over the extended-real datatype; the fresh-solver and cvc5 fallbacks then take over)"""
+    try:
+        return solver.check()
+    except z3.Z3Exception:
+        return z3.unknown
 
 
 def _alpha_eq(a, b):
